@@ -197,6 +197,8 @@ class LatticeDomain:
 
 
 def run(ctx):
+    from xfabsa import numeric as _N
+    _N.alias_rule(ctx, 'C15', ['xfab/structure.py', 'xfab/sg.py'])
     ctx.rule("image", "image i == R_i . x + t_i (E3, symbolic R, t, x)")
     ctx.rule("lattice", "identification predicate is true on all 27 near-integer patterns and false when a component is a fraction")
     ctx.rule("tolerance", "tolerance literal within [1e-5, 1e-2]")
